@@ -239,6 +239,12 @@ def run(chk):
         ("output_type=tuple", dict(output_type=("triplets",)), {"outputKnown": False}),
         ("custom_distance=bad-string", dict(custom_distance="levenshtein"), {"customOk": False}),
         ("custom_distance=nonzero-self", dict(custom_distance=lambda a, b: 1), {"customOk": False}),
+        # a custom distance that cannot be evaluated on the sequences (raises): rejected, not passed on
+        ("custom_distance=raises", dict(custom_distance=lambda a, b: len(a) / 0), {"customOk": False}),
+        ("custom_distance=not-callable", dict(custom_distance=3), {"customOk": False}),
+        # ... also one that fails only on a sequence compared with itself (the validation evaluates d(x, x); the search of distinct
+        # sequences never does)
+        ("custom_distance=raises-on-self", dict(custom_distance=lambda a, b: 1 // (a != b)), {"customOk": False}),
         ("max_custom_distance=-1", dict(custom_distance=dist0, max_custom_distance=-1), {"mcdNonneg": False}),
         ("max_custom_distance=nan", dict(custom_distance=dist0, max_custom_distance=float("nan")), {"mcdNonneg": False}),
         ("max_custom_distance='1'", dict(custom_distance=dist0, max_custom_distance="1"), {"mcdIsNumber": False, "mcdNonneg": False}),
@@ -257,6 +263,21 @@ def run(chk):
         st, val = core.call_real(lambda: fns[e](good, max_edits=1))
         if st != "ok":
             chk.violation(f"C10|{e}|valid-rejected", f"{e} rejects a valid call: {val}", {"engine": e, "seqs": good})
+        # valid calls on the BOUNDARY of every validated argument are accepted and answered (smallest max_edits / max_returns / n_cpu,
+        # radius 0, a two-sequence input, every documented output type)
+        want_b = [(0, 1, 1), (1, 0, 1)]
+        for bname, bkw in (("max_returns=1", dict(max_returns=1)), ("max_returns=2", dict(max_returns=2)), ("n_cpu=1", dict(n_cpu=1)),
+                           ("max_custom_distance=0", dict(custom_distance=dist0, max_custom_distance=0)),
+                           ("max_custom_distance=int", dict(custom_distance=dist0, max_custom_distance=1)),
+                           ("max_custom_distance=float", dict(custom_distance=dist0, max_custom_distance=1.0)),
+                           ("custom_distance=hamming", dict(custom_distance="hamming")), ("output_type=triplets", dict(output_type="triplets"))):
+            st, val = core.call_real(lambda: sorted((int(a_), int(b_), int(d_)) for a_, b_, d_ in fns[e](good, max_edits=1, **bkw)))
+            chk.case(nontrivial_key=("valid-boundary", e, bname))
+            chk.count("valid-boundary")
+            expect_b = [] if bname == "max_custom_distance=0" else want_b
+            if st != "ok" or val != expect_b:
+                chk.violation(f"C10|{e}|{bname}|valid-boundary", f"{e}(['CAAA', 'CADA'], max_edits=1, {bname}) is a valid call and should return {expect_b}: "
+                              f"{st} {str(val)[:100]}", {"engine": e, "arguments": bname})
         for name, kw, _desc in invalid:
             args = dict(seqs=good, max_edits=1)
             args.update(kw)
